@@ -1,18 +1,30 @@
 package main
 
 // Tie of the Gallina models of the GO DECODERS (coq/theories/Enc/GoDec*.v) to
-// the code: for the bytes Go encoded and for malformed streams derived from
-// them (truncations, bit flips, counts lying about the length, trailing
-// bytes) the Go decoder's outcome -- ok / error / panic, and the decoded
-// values when ok -- must be the model's.  The specification decoders are run
-// on the same streams for the record (Go is deliberately more lenient in
-// places; streams that both accept with DIFFERENT values are listed in the
-// notes of the run).
+// the code, and hard checks of the Go decoders on input that Go's encoders
+// did not produce:
+//
+//   * the bytes Go encoded, and malformed streams derived from them
+//     (truncation at every position for short encodings, bit flips, counts
+//     lying about the length, empty runs, trailing bytes): the Go decoder's
+//     outcome -- ok / error / panic, and the decoded values when ok -- must be
+//     the model's (corr:C04.go_decoder.<kind>); a Go decoder must never
+//     panic, its outcome must not depend on what lies behind len(src) in the
+//     capacity of the slice (RLE decoders), and when both Go and the
+//     specification decoder accept a stream they must return the same values
+//     (streams with an empty run excepted, see the notes of the run);
+//   * foreign streams: specification-conforming RLE / bit-packed streams with
+//     run-length runs of ANY length (not only the multiples of 8 that Go
+//     writes) and bit-packed runs, for levels, int32 and booleans: Go must
+//     decode them to the values they were built from; a bit-packed block cut
+//     short must be an error.
 
 import (
 	"bytes"
+	"encoding/binary"
 	"fmt"
 	"math/rand"
+	"os"
 	"strings"
 
 	"github.com/parquet-go/parquet-go/encoding/delta"
@@ -33,7 +45,7 @@ func (r decRes) String() string {
 	return r.status
 }
 
-const costLimit = 1 << 14
+const costLimit = 1 << 13
 
 // exact returns a copy of b whose capacity equals its length.
 func exact(b []byte) []byte {
@@ -72,11 +84,15 @@ func safeUnflatten(data []byte, offsets []uint32) string {
 	return hexList(vs)
 }
 
+func isRLE(kind string) bool {
+	return kind == "levels" || kind == "int32" || kind == "dict" || kind == "bool"
+}
+
 // goDecode runs the Go decoder of one kind on src.
 func goDecode(kind string, width int, src []byte) (res decRes) {
 	defer func() {
 		if r := recover(); r != nil {
-			res = decRes{status: "panic"}
+			res = decRes{status: "panic", vals: fmt.Sprint(r)}
 		}
 	}()
 	st := func(err error, vals func() string) decRes {
@@ -183,16 +199,23 @@ func specDecode(c *core.Ctx, kind string, width int, src []byte) string {
 		return c.Ask("c04.dict_dec " + h)
 	case "dbp32", "dbp64":
 		return strings.SplitN(c.Ask("c04.dbp_dec "+kind[3:]+" "+h), " ", 2)[0]
-	case "dlba":
-		return c.Ask("c04.dlba_dec " + h)
-	case "dba", "dba_flba":
+	case "dba":
 		return c.Ask("c04.dba_dec " + h)
 	}
 	return "NONE"
 }
 
-// costs returns (cost of Go's walk, cost of the specification decoder's walk).
-func costs(c *core.Ctx, kind string, width int, src []byte) (uint64, uint64) {
+func specComparable(kind string) bool {
+	switch kind {
+	case "levels", "int32", "dict", "dbp32", "dbp64", "dba":
+		return true
+	}
+	return false
+}
+
+// costs returns (cost of Go's walk, cost of the specification decoder's
+// walk, whether a walk meets an empty run).
+func costs(c *core.Ctx, kind string, width int, src []byte) (uint64, uint64, bool) {
 	h := core.Hexs(src)
 	parse := func(s string) uint64 {
 		if len(s) > 8 {
@@ -202,103 +225,137 @@ func costs(c *core.Ctx, kind string, width int, src []byte) (uint64, uint64) {
 		fmt.Sscanf(s, "%x", &v)
 		return v
 	}
+	rleCost := func(k string, w int, b []byte) (uint64, uint64, bool) {
+		f := strings.Fields(c.Ask(fmt.Sprintf("c04.go_rle_cost %s %d %s", k, w, core.Hexs(b))))
+		if len(f) != 3 {
+			return 1 << 62, 1 << 62, false
+		}
+		return parse(f[0]), parse(f[1]), f[2] == "1"
+	}
 	switch kind {
 	case "levels", "int32":
-		f := strings.Fields(c.Ask(fmt.Sprintf("c04.go_rle_cost %s %d %s", kind, width, h)))
-		return parse(f[0]), parse(f[1])
+		return rleCost(kind, width, src)
 	case "dict":
 		if len(src) == 0 {
-			return 0, 0
+			return 0, 0, false
 		}
-		f := strings.Fields(c.Ask(fmt.Sprintf("c04.go_rle_cost int32 %d %s", src[0], core.Hexs(src[1:]))))
-		return parse(f[0]), parse(f[1])
+		return rleCost("int32", int(src[0]), src[1:])
 	case "bool":
 		if len(src) <= 4 {
-			return 0, 0
+			return 0, 0, false
 		}
-		f := strings.Fields(c.Ask("c04.go_rle_cost bool 1 " + core.Hexs(src[4:])))
-		return parse(f[0]), parse(f[1])
+		return rleCost("bool", 1, src[4:])
 	case "dbp32", "dbp64", "dlba":
 		v := parse(c.Ask(fmt.Sprintf("c04.go_delta_cost 1 %x %s", costLimit, h)))
-		return v, v
+		return v, v, false
 	default:
 		v := parse(c.Ask(fmt.Sprintf("c04.go_delta_cost 2 %x %s", costLimit, h)))
-		return v, v
+		return v, v, false
 	}
 }
 
 type decStats struct {
-	streams, goOK, goErr, goPanic int
-	lenient, strict, differ       int // Go vs the specification decoder
-	overread                      int
-	exDiffer, exOverread, exPanic map[string]string
+	streams, goOK, goErr       int
+	lenient, strict, emptyRuns int // Go vs the specification decoder
+	overread, quirks           int
+	foreign, foreignCut        int
+	exOverread, exEmpty        map[string]string
+	exQuirk                    map[string]string
 }
 
-var stats = decStats{exDiffer: map[string]string{}, exOverread: map[string]string{}, exPanic: map[string]string{}}
+var stats = decStats{exOverread: map[string]string{}, exEmpty: map[string]string{}, exQuirk: map[string]string{}}
 
-// valuesOfSpec brings the specification decoder's answer to the canonical
-// text of goDecode where the two are comparable; ok=false when they are not.
-func specComparable(kind string, g decRes, spec string) (same bool, ok bool) {
-	switch kind {
-	case "levels", "dbp32", "dbp64", "dba":
-		return g.vals == spec, true
-	case "int32", "dict":
-		// bit-packed runs decode whole groups of 8 on both sides
-		return g.vals == spec, true
-	}
-	return false, false
-}
+// kinds whose decoder is known to read into the spare capacity of src on
+// malformed input (recorded as an observation, not a violation)
+var overreadTolerated = map[string]bool{"dbp32": true, "dlba": true, "dba": true, "dba_flba": true}
 
-// tieStream compares Go with its model (and records Go vs specification) on
-// one stream.  Returns false when a mismatch was reported.
-func (k *checker) tieStream(kind string, width int, stream []byte, what string) bool {
+// tieStream compares Go with its model and evaluates the hard checks on one
+// stream.  Returns false when something was reported.
+func (k *checker) tieStream(kind string, width int, stream []byte, what string, goBytes bool) bool {
 	c := k.c
-	goCost, specCost := costs(c, kind, width, stream)
+	goCost, specCost, emptyRun := costs(c, kind, width, stream)
 	if goCost > costLimit {
 		return true
 	}
+	rec := &c04Case{Enc: "godec:" + kind, Width: width, Strs: []string{fmt.Sprintf("%x", stream)}}
 	g := goDecode(kind, width, exact(stream))
-	m := modelDecode(c, kind, width, stream)
 	stats.streams++
-	switch g.status {
-	case "ok":
+	if g.status == "panic" {
+		k.ok = false
+		c.Violation("decoder-panic", fmt.Sprintf("Go decoder %s (width %d) panics on the stream %s (%s): %s", kind, width, core.Hexs(stream), what, g.vals), rec)
+		return false
+	}
+	if g.status == "ok" {
 		stats.goOK++
-	case "err":
+	} else {
 		stats.goErr++
-	default:
-		stats.goPanic++
-		if _, seen := stats.exPanic[kind]; !seen {
-			stats.exPanic[kind] = fmt.Sprintf("width %d stream %s", width, core.Hexs(stream))
+	}
+	m := modelDecode(c, kind, width, stream)
+	if g != m && g.status == "ok" && m.status == "ok" && c.Res.Variant != "purego" && !isRLE(kind) {
+		// the assembly kernels are modelled only where well-formed input can reach them
+		sections, kk := 1, "32"
+		if kind == "dba" || kind == "dba_flba" {
+			sections = 2
 		}
+		if kind == "dbp64" {
+			kk = "64"
+		}
+		if q := c.Ask(fmt.Sprintf("c04.go_delta_quirk %d %s %s", sections, kk, core.Hexs(stream))); q == "1" || q == "2" {
+			stats.quirks++
+			if _, seen := stats.exQuirk[kind+q]; !seen {
+				why := "a mini-block bit width above the width of the type"
+				if q == "2" {
+					why = "bytes after the last suffix"
+				}
+				stats.exQuirk[kind+q] = fmt.Sprintf("%s, %s, stream %s: this build returns %s, the portable code (and its model) %s", kind, why, core.Hexs(stream), core.Trunc(g.vals, 200), core.Trunc(m.vals, 200))
+			}
+			return true
+		}
+	}
+	if g != m && g.status == "ok" && m.status == "err" && c.Res.Variant != "purego" && (kind == "dba" || kind == "dba_flba") {
+		// validatePrefixAndSuffixLengthValuesAVX2 accepts prefixes longer than the previous value
+		stats.quirks++
+		if _, seen := stats.exQuirk[kind+"v"]; !seen {
+			stats.exQuirk[kind+"v"] = fmt.Sprintf("%s, stream %s: the portable code (and its model) return an error, this build returns %s", kind, core.Hexs(stream), core.Trunc(g.vals, 200))
+		}
+		return true
 	}
 	if g != m {
 		if k.ok {
-			cs := &c04Case{Enc: "godec:" + kind, Width: width, Strs: []string{fmt.Sprintf("%x", stream)}}
-			c.Mismatch("corr:C04.go_decoder."+kind, fmt.Sprintf("%s width %d stream %s (%s)", kind, width, core.Hexs(stream), what), g.String(), m.String(), cs)
+			c.Mismatch("corr:C04.go_decoder."+kind, fmt.Sprintf("%s width %d stream %s (%s)", kind, width, core.Hexs(stream), what), g.String(), m.String(), rec)
 		}
 		k.ok = false
 		return false
 	}
 	// spare capacity behind the slice must not change the outcome
 	if g2 := goDecode(kind, width, roomy(stream)); g2 != g {
+		if !overreadTolerated[kind] {
+			k.ok = false
+			c.Violation("reads-beyond-input", fmt.Sprintf("Go decoder %s (width %d), stream %s (%s): with cap(src) = len(src) the result is %s, with 64 spare bytes of 0xAA behind the slice it is %s", kind, width, core.Hexs(stream), what, g, g2), rec)
+			return false
+		}
 		stats.overread++
 		if _, seen := stats.exOverread[kind]; !seen {
 			stats.exOverread[kind] = fmt.Sprintf("width %d stream %s: cap=len gives %s, 64 spare bytes of 0xAA give %s", width, core.Hexs(stream), g, g2)
 		}
 	}
-	if specCost <= costLimit && kind != "bool" && kind != "dlba" && kind != "dba_flba" {
+	if !goBytes && specCost <= costLimit && specComparable(kind) {
 		spec := specDecode(c, kind, width, stream)
 		switch {
 		case g.status == "ok" && spec == "NONE":
 			stats.lenient++
 		case g.status != "ok" && spec != "NONE":
 			stats.strict++
-		case g.status == "ok":
-			if same, cmp := specComparable(kind, g, spec); cmp && !same {
-				stats.differ++
-				if _, seen := stats.exDiffer[kind]; !seen {
-					stats.exDiffer[kind] = fmt.Sprintf("width %d stream %s: Go %s, specification decoder %s", width, core.Hexs(stream), core.Trunc(g.vals, 200), core.Trunc(spec, 200))
+		case g.status == "ok" && g.vals != spec:
+			if emptyRun {
+				stats.emptyRuns++
+				if _, seen := stats.exEmpty[kind]; !seen {
+					stats.exEmpty[kind] = fmt.Sprintf("width %d stream %s: Go %s, specification decoder %s", width, core.Hexs(stream), core.Trunc(g.vals, 120), core.Trunc(spec, 120))
 				}
+			} else {
+				k.ok = false
+				c.Violation("go-vs-spec-values", fmt.Sprintf("%s (width %d), stream %s (%s): Go decodes %s without error, the specification decoder decodes %s", kind, width, core.Hexs(stream), what, core.Trunc(g.vals, 300), core.Trunc(spec, 300)), rec)
+				return false
 			}
 		}
 	}
@@ -351,34 +408,40 @@ func mutations(rng *rand.Rand, kind string, b []byte, full bool) [][]byte {
 			out = append(out, m)
 		}
 	}
+	hdr := 0 // position of the first run header
 	switch kind {
 	case "dbp32", "dbp64", "dlba", "dba", "dba_flba":
 		// 80 01 | 04 | total | first ...
 		lie(3, 1)
 		lie(3, -1)
 		lie(3, 37)
-		lie(2, 4)  // 8 mini-blocks
-		lie(2, -4) // no mini-block
-		lie(1, 1)  // block size 256
-		lie(0, 1)  // block size 129
+		lie(2, 4)                            // 8 mini-blocks
+		lie(2, -4)                           // no mini-block
+		lie(2, -1)                           // 3 mini-blocks
+		lie(1, 1)                            // block size 256
+		lie(0, 1)                            // block size 129
+		set(3, 0xff, 0xff, 0xff, 0xff, 0x07) // MaxInt32 values
+		set(3, 0x80, 0x80, 0x80, 0x80, 0x08) // MaxInt32 + 1 values
+		return append(out, append(append([]byte(nil), b...), 0), append(append([]byte(nil), b...), 0x03, 0x88, 0xc6, 0xfa))
 	case "bool":
 		lie(0, 1)
 		lie(0, -1)
-		lie(4, 2)
-		lie(4, 1)
+		hdr = 4
 	case "dict":
 		lie(0, 1)
 		lie(0, -1)
-		lie(1, 2)
-		lie(1, 1)
-	default:
-		lie(0, 2)
-		lie(0, -2)
-		lie(0, 1)                                    // run-length <-> bit-packed
-		set(0, 0x00, b[0])                           // an empty run first
-		set(0, b[0]|0x80, 0x00)                      // non-canonical varint
-		set(0, 0xfe, 0xff, 0xff, 0xff, 0x0f)         // MaxInt32 values
-		set(0, 0x80, 0x80, 0x80, 0x80, 0x10)         // MaxInt32 + 1 values
+		hdr = 1
+	}
+	if hdr < L {
+		lie(hdr, 2)
+		lie(hdr, -2)
+		lie(hdr, 1)                                                          // run-length <-> bit-packed
+		set(hdr, 0x00, b[hdr])                                               // an empty run first
+		set(hdr, b[hdr]|0x80, 0x00)                                          // non-canonical varint
+		set(hdr, 0xfe, 0xff, 0xff, 0xff, 0x0f)                               // MaxInt32 values
+		set(hdr, 0x80, 0x80, 0x80, 0x80, 0x10)                               // MaxInt32 + 1 values
+		set(hdr, 0xff, 0xff, 0xff, 0xff, 0xff, 0xff, 0xff, 0xff, 0xff, 0x01) // 2^63 groups
+		set(hdr, 0xff, 0xff, 0xff, 0xff, 0xff, 0xff, 0xff, 0xff, 0xff, 0x02) // varint overflow
 	}
 	// trailing bytes
 	out = append(out, append(append([]byte(nil), b...), 0), append(append([]byte(nil), b...), 0x03, 0x88, 0xc6, 0xfa))
@@ -388,29 +451,230 @@ func mutations(rng *rand.Rand, kind string, b []byte, full bool) [][]byte {
 // decoderTie is called by checkInner with the bytes Go encoded.
 func (k *checker) decoderTie(rng *rand.Rand, kind string, width int, got []byte, wantVals string) {
 	c := k.c
-	if !c.HasOracle() || !k.ok || len(got) > 6000 {
+	_ = wantVals
+	if !c.HasOracle() || !k.ok || len(got) > tieMaxLen || os.Getenv("C04_GODEC") == "off" {
 		return
 	}
 	// (a) the bytes Go encoded: the model of the Go decoder decodes them to the input
-	m := modelDecode(c, kind, width, got)
-	if wantVals != "" && (m.status != "ok" || m.vals != wantVals) {
-		k.corr("go_decoder."+kind+".on_go_bytes", "ok "+core.Trunc(wantVals, 400), m.String())
-		return
-	}
-	if !k.tieStream(kind, width, got, "Go's bytes") {
+	// (Go's decoder returned wantVals; the specification decoder was run on these bytes by checkInner)
+	if !k.tieStream(kind, width, got, "Go's bytes", true) {
 		return
 	}
 	// (b) malformed streams
-	if k.fuzz == 0 {
+	if k.fuzz == 0 || len(got) > fuzzMaxLen {
 		return
 	}
-	full := k.fuzz == 2 && len(got) <= 24
+	full := k.fuzz == 2 && len(got) <= 20
 	for _, mu := range mutations(rng, kind, got, full) {
 		if bytes.Equal(mu, got) {
 			continue
 		}
-		if !k.tieStream(kind, width, mu, "mutation of Go's encoding of the case") {
+		if !k.tieStream(kind, width, mu, "mutation of Go's encoding of the case", false) {
 			return
+		}
+	}
+}
+
+// ---- foreign streams -------------------------------------------------------
+
+type frun struct {
+	Count  int      `json:"count,omitempty"`  // run-length run: number of values
+	Val    uint32   `json:"val,omitempty"`    //                 the value
+	Groups []uint32 `json:"groups,omitempty"` // bit-packed run: 8*g values
+}
+
+func putUvarint(b []byte, v uint64) []byte {
+	var t [binary.MaxVarintLen64]byte
+	return append(b, t[:binary.PutUvarint(t[:], v)]...)
+}
+
+// serializeRuns writes the runs as Encodings.md describes them.
+func serializeRuns(w int, runs []frun) (stream []byte, vals []uint32, lastBP int) {
+	lastBP = -1
+	for _, r := range runs {
+		if r.Groups == nil {
+			stream = putUvarint(stream, uint64(r.Count)<<1)
+			for i := 0; i < (w+7)/8; i++ {
+				stream = append(stream, byte(r.Val>>(8*i)))
+			}
+			for i := 0; i < r.Count; i++ {
+				vals = append(vals, r.Val)
+			}
+			lastBP = -1
+			continue
+		}
+		stream = putUvarint(stream, uint64(len(r.Groups)/8)<<1|1)
+		lastBP = len(stream)
+		var acc uint64
+		nbits := 0
+		for _, v := range r.Groups {
+			acc |= uint64(v) << nbits
+			nbits += w
+			for nbits >= 8 {
+				stream = append(stream, byte(acc))
+				acc >>= 8
+				nbits -= 8
+			}
+		}
+		vals = append(vals, r.Groups...)
+	}
+	return
+}
+
+func genRuns(rng *rand.Rand, w int) []frun {
+	n := 1 + rng.Intn(6)
+	max := uint32(1)<<uint(w) - 1
+	if w == 32 {
+		max = ^uint32(0)
+	}
+	val := func() uint32 {
+		switch rng.Intn(4) {
+		case 0:
+			return max
+		case 1:
+			return 0
+		}
+		if max == ^uint32(0) {
+			return rng.Uint32()
+		}
+		return uint32(rng.Int63n(int64(max) + 1))
+	}
+	runs := make([]frun, n)
+	for i := range runs {
+		if rng.Intn(3) > 0 {
+			counts := []int{1, 2, 3, 5, 7, 8, 9, 10, 13, 15, 16, 17, 23, 24, 31, 33, 63, 64, 65, 100, 127, 128, 129, 1 + rng.Intn(300)}
+			runs[i] = frun{Count: counts[rng.Intn(len(counts))], Val: val()}
+		} else {
+			g := make([]uint32, 8*(1+rng.Intn(3)))
+			for j := range g {
+				g[j] = val()
+			}
+			runs[i] = frun{Groups: g}
+		}
+	}
+	return runs
+}
+
+type foreignCase struct {
+	Kind  string `json:"kind"`
+	Width int    `json:"width"`
+	Runs  []frun `json:"runs"`
+}
+
+// checkForeign: Go must decode a conforming stream to the values it was built from.
+func (k *checker) checkForeign(fc *foreignCase) {
+	c := k.c
+	body, vals, lastBP := serializeRuns(fc.Width, fc.Runs)
+	stream := body
+	if fc.Kind == "bool" {
+		stream = append(binary.LittleEndian.AppendUint32(nil, uint32(len(body))), body...)
+	}
+	us := make([]uint64, len(vals))
+	for i, v := range vals {
+		us[i] = uint64(v)
+	}
+	want := uList(us)
+	g := goDecode(fc.Kind, fc.Width, exact(stream))
+	stats.foreign++
+	fail := func(class, what string) {
+		k.ok = false
+		c.Violation(class, what, k.cs)
+	}
+	desc := fmt.Sprintf("%s width %d, conforming stream %s", fc.Kind, fc.Width, core.Hexs(stream))
+	switch {
+	case g.status == "panic":
+		fail("decoder-panic", desc+": Go decoder panics: "+g.vals)
+		return
+	case g.status != "ok":
+		fail("foreign-stream", desc+": Go decoder returns an error")
+		return
+	}
+	if fc.Kind == "bool" {
+		// packed bits: the first len(vals) must be the values
+		d, _ := (&rle.Encoding{BitWidth: 1}).DecodeBoolean(nil, exact(stream))
+		if 8*len(d) < len(vals) {
+			fail("foreign-stream", fmt.Sprintf("%s: %d values expected, Go returns %d bytes", desc, len(vals), len(d)))
+			return
+		}
+		for i, v := range vals {
+			if uint32(d[i/8]>>(uint(i)%8))&1 != v {
+				fail("foreign-stream", fmt.Sprintf("%s: value %d of %d is %d, Go returns the packed bits %x without error", desc, i, len(vals), v, d))
+				return
+			}
+		}
+	} else if g.vals != want {
+		fail("foreign-stream", fmt.Sprintf("%s: expected %s, Go returns %s without error", desc, core.Trunc(want, 300), core.Trunc(g.vals, 300)))
+		return
+	}
+	// a bit-packed block cut short must be an error
+	if lastBP >= 0 && len(body) > lastBP {
+		cut := lastBP + k.cutRng.Intn(len(body)-lastBP)
+		t := body[:cut]
+		if fc.Kind == "bool" {
+			t = append(binary.LittleEndian.AppendUint32(nil, uint32(cut)), t...)
+		}
+		stats.foreignCut++
+		for _, src := range [][]byte{exact(t), roomy(t)} {
+			if gt := goDecode(fc.Kind, fc.Width, src); gt.status != "err" {
+				fail("truncated-block-accepted", fmt.Sprintf("%s width %d: the stream %s ends inside a bit-packed block (cap-len = %d): Go returns %s", fc.Kind, fc.Width, core.Hexs(t), cap(src)-len(src), gt))
+				return
+			}
+		}
+	}
+	if !c.HasOracle() {
+		return
+	}
+	// the model of the Go decoder and the specification decoder agree
+	if m := modelDecode(c, fc.Kind, fc.Width, stream); m != g {
+		k.corr("go_decoder."+fc.Kind+".foreign", g.String(), m.String())
+		return
+	}
+	if fc.Kind == "bool" {
+		if sd := c.Ask(fmt.Sprintf("c04.rle_bool_dec %d %s", len(vals), core.Hexs(stream))); sd != want {
+			k.corr("foreign.generator.bool", want, sd)
+		}
+	} else if sd := c.Ask(fmt.Sprintf("c04.rle_dec %d %s", fc.Width, core.Hexs(stream))); sd != want {
+		k.corr("foreign.generator", want, sd)
+	}
+}
+
+func runForeign(c *core.Ctx) {
+	if os.Getenv("C04_GODEC") == "off" {
+		return
+	}
+	rng := c.Rng
+	n := c.N(1500, 30000)
+	for i := 0; i < n; i++ {
+		var fc foreignCase
+		switch i % 3 {
+		case 0:
+			fc = foreignCase{Kind: "bool", Width: 1}
+		case 1:
+			fc = foreignCase{Kind: "levels", Width: rng.Intn(9)}
+		default:
+			fc = foreignCase{Kind: "int32", Width: []int{0, 1, 2, 3, 5, 7, 8, 9, 12, 16, 17, 24, 31, 32}[rng.Intn(14)]}
+		}
+		fc.Runs = genRuns(rng, fc.Width)
+		cs := &c04Case{Enc: "foreign", Foreign: &fc}
+		if c.Probe(func() { check(c, cs) }) {
+			// shrink: drop runs
+			for changed := true; changed; {
+				changed = false
+				for j := range fc.Runs {
+					t := fc
+					t.Runs = append(append([]frun(nil), fc.Runs[:j]...), fc.Runs[j+1:]...)
+					tc := &c04Case{Enc: "foreign", Foreign: &t}
+					if len(t.Runs) > 0 && c.Probe(func() { check(c, tc) }) {
+						fc, changed = t, true
+						break
+					}
+				}
+			}
+			check(c, &c04Case{Enc: "foreign", Foreign: &fc})
+		}
+		c.Case("foreign/"+fc.Kind, fmt.Sprint(fc), len(fc.Runs) >= 2)
+		if i < 2 {
+			c.Sample(fc)
 		}
 	}
 }
@@ -420,22 +684,23 @@ func (k *checker) checkStream(kind string, width int, stream []byte) {
 	if !k.c.HasOracle() {
 		return
 	}
-	k.tieStream(kind, width, stream, "replay")
+	k.tieStream(kind, width, stream, "replay", false)
 }
 
 func reportDecoderStats(c *core.Ctx) {
 	if stats.streams == 0 {
 		return
 	}
-	c.Note("Go decoders vs their Gallina models (Enc/GoDec*.v): %d streams (Go's own bytes, truncations, bit flips, lying counts, trailing bytes; slices with cap = len): Go ok %d, error %d, panic %d; outcome and values equal to the model's on all of them unless a corr:C04.go_decoder.* mismatch is listed", stats.streams, stats.goOK, stats.goErr, stats.goPanic)
-	c.Note("Go vs specification decoder on those streams (not part of the property, malformed input): Go accepts / specification rejects %d, Go rejects / specification accepts %d, both accept with different values %d; outcome changed by 64 spare bytes behind the slice: %d", stats.lenient, stats.strict, stats.differ, stats.overread)
-	for kind, ex := range stats.exPanic {
-		c.Note("observation (malformed input): Go decoder %s panics, as its model predicts: %s", kind, core.Trunc(ex, 300))
+	c.Note("Go decoders vs their Gallina models (Enc/GoDec*.v): %d streams (Go's own bytes; truncations, bit flips, lying counts, empty runs, trailing bytes derived from them; slices with cap = len): Go ok %d, error %d, no panic; outcome and values equal to the model's on all of them unless a corr:C04.go_decoder.* mismatch is listed", stats.streams, stats.goOK, stats.goErr)
+	c.Note("Go vs specification decoder on those streams: Go accepts / specification rejects %d (Go tolerates truncated DELTA mini-blocks and bit-width lists), Go rejects / specification accepts %d (Go's header checks, 10-byte varints, run counts above MaxInt32), both accept with different values only when an empty run is present: %d", stats.lenient, stats.strict, stats.emptyRuns)
+	c.Note("foreign streams (conforming RLE/bit-packed streams with run-length runs of any length, levels / int32 / booleans): %d decoded by Go to the values they were built from; %d of them cut inside their last bit-packed block: Go returns an error (with and without spare capacity)", stats.foreign, stats.foreignCut)
+	for kind, ex := range stats.exEmpty {
+		c.Note("observation: a run header announcing 0 values is skipped by Go's %s decoder without reading a value, the format's grammar gives a run-length run its value: %s", kind, core.Trunc(ex, 500))
+	}
+	for _, ex := range stats.exQuirk {
+		c.Note("observation (malformed input, %d streams, builds with assembly kernels only; values not compared with the model): %s", stats.quirks, core.Trunc(ex, 700))
 	}
 	for kind, ex := range stats.exOverread {
-		c.Note("observation (malformed input): Go decoder %s reads beyond len(src): %s", kind, core.Trunc(ex, 600))
-	}
-	for kind, ex := range stats.exDiffer {
-		c.Note("observation (malformed input): %s: %s", kind, core.Trunc(ex, 600))
+		c.Note("observation (malformed input, %d streams): Go decoder %s reads beyond len(src): %s", stats.overread, kind, core.Trunc(ex, 600))
 	}
 }
